@@ -19,6 +19,7 @@ package interp
 
 //@ wf elems
 //@ default opaque
+//@ default variants
 
 //@ spec func alldigits(s string) bool = forall j: 0 <= j < len(s) ==> '0' <= s[j] && s[j] <= '9'
 
@@ -48,6 +49,7 @@ package interp
 // optstr in the contracts (an assumption of determinism, not a proof).
 //@ func (Option).String
 //@   mode bv64
+//@   loop "for i := 0; i < len(optionString); i++" decreases len(optionString) - i
 //@   assumes result == optstr(o)
 
 //@ func (*ExecEnv).Get
@@ -88,6 +90,10 @@ package interp
 // one field per positional parameter.
 //@ func (*ExecEnv).Expand
 //@   loop "for _, f := range fields" invariant[C13 C15] mode&Literal == 0 && mode&Pattern == 0 && mode&(Arith|Quote) != 0 ==> len(rv) == rangeindex + 1
+//@   site LIT = call interp.(*field).unquote#1
+//@   site PAT = call interp.(*field).pattern
+//@   ensures[C15] literal-mode-first: result1 == nil && mode&Literal != 0 ==> site(LIT) && len(result0) == 1 && result0[0] == siteret(LIT)
+//@   ensures[C15] pattern-mode-escapes-whatever-else-is-set: result1 == nil && mode&Literal == 0 && mode&Pattern != 0 ==> site(PAT) && len(result0) == 1 && result0[0] == siteret(PAT)
 //@   ensures[C13 C15] one-result-per-field-in-quote-mode: result1 == nil && mode&Literal == 0 && mode&Pattern == 0 && mode&(Arith|Quote) != 0 ==> len(result0) == len(fields)
 //@   preserves[C20] F.interp.ExecEnv.* F.ast.* MapHas.Str.Str MapVal.Str.Str
 //@   preserves[C20] region field:interp.ExecEnv.Args field:ast.* ext:Expand.word unboxed:ast.*
@@ -98,6 +104,8 @@ package interp
 
 //@ func (*ExecEnv).expand
 //@   loop "for mode&Assign != 0" invariant 0 <= i && i < len(word) && len(fields) >= 1
+//@   loop "for mode&Assign != 0" unbounded lexicographic measure (literals of the word still to visit, bytes left in the current literal); not expressed as one integer
+//@   loop "for i := 0; i < len(word); i++" decreases len(word) - i
 //@   ensures err == nil ==> len(fields) >= 1
 //@   assert[C15] at call interp.(*field).join#2: literal-joins-with-the-quoting-of-its-context: arg2 == (mode&Quote != 0)
 //@   assert[C15] at call interp.(*field).join#3: literal-joins-with-the-quoting-of-its-context: arg2 == (mode&Quote != 0)
@@ -150,9 +158,12 @@ package interp
 // expandTilde reports how far it consumed: off literals of word beyond the
 // first one, and col bytes of the literal it stopped in.
 //@ func (*ExecEnv).expandTilde
+//@   assert[C14 C15] at call interp.(*field).join#1: a-home-directory-is-not-split-or-globbed: arg2
+//@   assert[C14 C15] at call interp.(*field).join#2: an-unexpanded-tilde-prefix-stays-unquoted-text: !arg2
 //@   ensures[C15] no-tilde-expansion-in-quoted-context: mode&(Arith|Quote) != 0 ==> off == 0 && col == 0 && f.b == old(f.b) && f.quote == old(f.quote)
 //@   requires f != nil
 //@   loop "for" invariant 0 <= off && off <= len(word) && 0 <= col
+//@   loop "for" decreases len(word) - off
 //@   loop "for" invariant off == 0 ==> col + len(s) == len(s#0)
 //@   loop "for" invariant off > 0 ==> word[off-1] is *ast.Lit && col + len(s) == len(word[off-1].(*ast.Lit).Value)
 //@   ensures 0 <= off && off <= len(word) && 0 <= col
@@ -180,6 +191,9 @@ package interp
 //@ func (*ExecEnv).split
 //@   props C14 C19
 //@   requires f != nil
+//@   loop "for i := 0; i < len(f.b); i++" invariant (forall k: 0 <= k && k < len(fields) ==> fields[k] != f) && f.b == old(f.b)
+//@   loop "for j, r := range s" invariant (forall k: 0 <= k && k < len(fields) ==> fields[k] != f) && f.b == old(f.b)
+//@   loop "for i := 0; i < len(f.b); i++" decreases len(f.b) - i
 //@   loop "for j, r := range s" invariant 0 <= i && i <= rangepos()
 //@   loop "for j, r := range s" invariant[C14] no-ifs-left: forall p: i <= p && p < rangepos() && boundary(s, p) ==> !containsrune(ifs, rune_at(s, p))
 //@   ensures[C14] empty-ifs: has(env.vars, "IFS") && old(env.vars["IFS"].Value) == "" ==> len(result) == 1 && result[0] == f
@@ -191,6 +205,7 @@ package interp
 //@ func (*field).empty
 //@   props C14 C19
 //@   loop "for i := 0; i < len(f.b); i++" invariant[C14] forall j: 0 <= j && j < i ==> !f.quote[j] && f.b[j] == ""
+//@   loop "for i := 0; i < len(f.b); i++" decreases len(f.b) - i
 //@   ensures[C14] result == (forall j: 0 <= j && j < len(f.b) ==> !f.quote[j] && f.b[j] == "")
 
 //@ func (*ExecEnv).join
@@ -206,11 +221,14 @@ package interp
 // matches only itself, while unquoted segments are passed on verbatim.
 //@ func (*field).join
 //@   ensures[C15] segment-added-verbatim: len(f.b) == old(len(f.b)) + 1 && len(f.quote) == old(len(f.quote)) + 1 && f.b[len(f.b)-1] == s && f.quote[len(f.quote)-1] == quote
+//@   ensures[C15 C14] only-this-field: forall p: p != f ==> heapfield("interp.field.b")[p] == old(heapfield("interp.field.b"))[p] && heapfield("interp.field.quote")[p] == old(heapfield("interp.field.quote"))[p]
 //@   ensures[C15] earlier-segments-kept: (forall j: 0 <= j && j < old(len(f.b)) ==> f.b[j] == old(f.b[j])) && (forall j: 0 <= j && j < old(len(f.quote)) ==> f.quote[j] == old(f.quote[j]))
 
 //@ spec func patspecial(c int) bool = c == '?' || c == '*' || c == '[' || c == '\\'
 //@ func (*field).pattern
 //@   props C15 C13 C19
+//@   loop "for i := 0; i < len(f.b); i++" decreases len(f.b) - i
+//@   loop "for" decreases len(s)
 //@   assert[C15 C13] at call strings.IndexAny: escapes-the-pattern-characters: arg1 == "?*[\\"
 //@   assert[C15 C13] at call strings.(*Builder).WriteString#1: quoted-rest-has-nothing-to-escape: forall k: 0 <= k && k < len(arg1) ==> !patspecial(arg1[k])
 //@   assert[C15 C13] at call strings.(*Builder).WriteString#2: quoted-chunk-has-nothing-to-escape: forall k: 0 <= k && k < len(arg1) ==> !patspecial(arg1[k])
@@ -261,10 +279,47 @@ package interp
 //@   ensures mutex-released: !locked(l.mu)
 //@ func (*lexer).Lex
 //@   requires lval != nil
+// The arithmetic lexer reads its expression rune by rune (same ghost source
+// as in package parser): a successful read advances by one, a failed one does
+// not, unread goes back at most one.  Every scanning loop continues only
+// after a successful read, so it ends with the expression.
+//@ func (*lexer).read
+//@   ensures result1 == nil ==> srcpos() == old(srcpos()) + 1 && 0 <= old(srcpos()) && old(srcpos()) < srclen() && result0 == srcrune(old(srcpos())) && lastread()
+//@   ensures result1 != nil ==> srcpos() == old(srcpos()) && !lastread()
+// The expression is a string (Eval builds the reader): reading it fails only at its end.
+//@   assumes 0 <= old(srcpos()) && old(srcpos()) < srclen() ==> result1 == nil
+//@ func (*lexer).unread
+//@   ensures old(lastread()) ==> srcpos() == old(srcpos()) - 1
+//@   ensures !old(lastread()) ==> srcpos() == old(srcpos())
+//@ func (*lexer).lexToken
+//@   requires l.b == ""
+//@   ensures l.b == ""
+//@   loop "label Read" decreases srclen() - srcpos()
+// A NUMBER token is a run of decimal digits, or begins with 0x / 0X: the
+// lexer hands no other spelling to strconv.ParseInt (which would also accept
+// Go's 0b, 0o and "_" forms).  The text buffer is empty between tokens.
+//@ func (*lexer).lexNumber
+//@   requires l.b == ""
+//@   requires[C11] starts-at-a-digit: 0 <= srcpos() && srcpos() < srclen() && '0' <= srcrune(srcpos()) && srcrune(srcpos()) <= '9'
+//@   ensures l.b == ""
+//@   loop "for" decreases srclen() - srcpos()
+//@   loop "for" invariant[C11] decimal-digits-unless-hexadecimal: len(l.b) >= 1 && (!hex ==> (forall k: 0 <= k && k < len(l.b) ==> '0' <= l.b[k] && l.b[k] <= '9')) && (hex ==> len(l.b) >= 2 && l.b[0] == '0' && (l.b[1] == 'x' || l.b[1] == 'X'))
+//@   assert[C11] at call interp.(*lexer).emit: constant-is-decimal-or-starts-with-0x: (forall k: 0 <= k && k < len(l.b) ==> '0' <= l.b[k] && l.b[k] <= '9') || (len(l.b) >= 2 && l.b[0] == '0' && (l.b[1] == 'x' || l.b[1] == 'X'))
 //@ func (*lexer).emit
 //@   maypanic bailout
+//@   ensures typ == NUMBER || typ == IDENT ==> l.b == ""
+//@   ensures typ != NUMBER && typ != IDENT ==> l.b == old(l.b)
+//@ func (*lexer).lexOp
+//@   requires l.b == ""
+//@   ensures l.b == ""
+//@ func (*lexer).lexIdent
+//@   requires l.b == ""
+//@   ensures l.b == ""
+//@   loop "for" decreases srclen() - srcpos()
 //@ func (*lexer).run
 //@   recovers bailout
+//@   requires l.b == ""
+//@   loop "for action := l.lexToken; action != nil;" unbounded driver of the state functions: each of them consumes input or ends the run; not expressed as one variant
 //@ func (*lexer).run$1
 //@   recovers bailout
 //@ func newLexer
